@@ -45,9 +45,11 @@ class file_monitoring_lru_cache:
             full_path = pathlib.Path(path).resolve()
             if full_path.exists():
                 path_stat = full_path.stat()
+                # `path` and `path_stats` are passed as positional arguments
+                # so that they cannot collide with `args`.
                 return cached_wrapper(
-                    path=full_path,
-                    path_stats=(path_stat.st_mtime_ns, path_stat.st_size),
+                    full_path,
+                    (path_stat.st_mtime_ns, path_stat.st_size),
                     *args,
                     **kwargs)
             else:
